@@ -5,6 +5,12 @@ V = "/verif"
 props = [json.loads(l) for l in open(V + "/properties.jsonl")]
 
 CLAIMED = {
+ "C07": dict(
+    text="ORDER/TABLE/WHO rules over misc/mke2fs.c and what it reaches: the quota files (a snapshot of all usage) are written after every step that can still allocate an inode or block (orphan file, huge files, -d population) and only the close follows, usage computed before they are written; "
+         "each feature owning an on-disk object (resize_inode, has_journal, orphan_file, mmp, quota, bigalloc fix-up) has its creator call in main, conditional on that feature, and a creator's failure ends the run non-zero; root directory, lost+found, reserved-inode marks and bad-block inode are created on every full run after table allocation; "
+         "PRS dominates every write-capable call of main; every wall-clock read reachable from main yields to fs->now (E2FSPROGS_FAKE_TIME / SOURCE_DATE_EPOCH) or is a listed non-persistent use (one reason each), the wrapper ext2fsP_get_time prefers fs->now; UUID and hash seed are generated only when none was given (or overwritten by the given one). "
+         "`mke2fs -n` is decided under C13.d and backup wiring under C20. Decides ordering/wiring/determinism-source clauses for every configuration; does NOT decide geometry arithmetic (group and table placement, overhead, free counts): seed C07-1 (wrong count passed to an accounting helper) is of that kind and is not caught.",
+    ref="§8.6 C07", technique="static analysis: call-graph MAY summaries after an ordering point, feature/creator table with control dependence and error-exit classification, who-may-call for time sources with an exemption table"),
  "C10": dict(
     text="Typestate/ORDER/PAIRING rules over lib/ext2fs/{link,unlink,mkdir}.c, debugfs/debugfs.c, misc/create_inode.c and every directory-iterator callback of the tree: a callback that changed an entry reports DIRENT_CHANGED on every non-error return; "
          "a callback that merges an entry into the predecessor it remembers is run with DIRENT_FLAG_INCLUDE_EMPTY; every increment of a link count is dominated by a test against EXT2_LINK_MAX (dir_nlink rule for directories, refusal for files); "
@@ -136,7 +142,6 @@ CLAIMED = {
 }
 
 NA_REASON = {
- "C07": "geometry arithmetic and option-compatibility logic over a combinatorial configuration space: numerical, no clause visible in the shape of the code; mke2fs -n is decided under C13, backup writing under C20",
 }
 
 checks = []
